@@ -47,6 +47,7 @@ EXPECT = [
     ("LeafNodes/LeafPaths dropped a top-level empty key", ["C09"]),
     ("with an index ignored empty path segments", ["C07", "C09"]),
     ("mistook a parent that is the empty key", ["C11"]),
+    ("panicked at a wildcard over a map with an empty key", ["C20"]),
 ]
 
 
